@@ -72,7 +72,8 @@ fn one(out: &mut Out, terms: &[Vec<u8>], word: bool, accept: bool, family: &str)
         MergeResult::Conflict(hs) => format!("C:{}", hs.iter().map(|h| show_terms(h.iter())).collect::<Vec<_>>().join("|")),
     };
     let ts = match &tm { Some(c) => format!("some:{}", hex(c)), None => "none".into() };
-    out.case(&req, &format!("hunks={} merge={} try={}", hs, show_terms(mg.iter()), ts));
+    // ` sre=1`: the Lean driver prints whether the hypothesis of the identity theorem holds for the model's diff
+    out.case(&req, &format!("hunks={} merge={} try={} sre=1", hs, show_terms(mg.iter()), ts));
     out.tally("result", if mg.is_resolved() { "resolved" } else { "conflict" });
     let distinct = terms.iter().collect::<std::collections::BTreeSet<_>>().len();
     if terms.len() >= 3 && distinct >= 2 { out.nontrivial((terms.to_vec(), word, accept)); }
